@@ -1162,15 +1162,15 @@ impl FromIterator<char> for LeanString {
         let iter = iter.into_iter();
 
         let (lower_bound, _) = iter.size_hint();
-        let mut repr = match Repr::with_capacity(lower_bound) {
-            Ok(buf) => buf,
-            Err(_) => Repr::new(), // Ignore the error and hope that the lower_bound is incorrect.
-        };
+        // Ignore the error and hope that the lower_bound is incorrect.
+        // NOTE: accumulate in a `LeanString` (not a raw `Repr`): it is dropped, and its buffer
+        // freed, if the iterator or a push panics.
+        let mut buf = LeanString::try_with_capacity(lower_bound).unwrap_or_default();
 
         for ch in iter {
-            repr.push_str(ch.encode_utf8(&mut [0; 4])).unwrap_with_msg();
+            buf.push(ch);
         }
-        LeanString(repr)
+        buf
     }
 }
 
